@@ -2,7 +2,7 @@
 from __future__ import annotations
 
 from mbt import engine as E
-from mbt.checks import c02
+from mbt.checks import alloc_stage, c02
 
 PID = "C06"
 MINE = {"NewShapeIdsFresh", "NewSlideIdFresh", "SlideIdsStable", "RidsUniquePerSource", "RidsNotReassigned", "PartNamesUnique",
@@ -25,7 +25,7 @@ def main() -> int:
                    "TLC explores every history of additions (every shape kind, both id allocators, turbo mode on/off, slides, notes, links) "
                    "<= DEPTH from decks with id gaps, ids near 2^31, slide ids at the upper bound and permuted part names; the allocators' "
                    "transcription is checked for freshness at design level; each history is replayed and TLC evaluates freshness, stability "
-                   "and naming clauses on the ids read from the serialised parts after every step", facets_on=False)
+                   "and naming clauses on the ids read from the serialised parts after every step; " + "ALLOCATOR STAGE (spec/Alloc.tla): every subset of an identifier universe x short alloc/release/turbo sequences per allocator", facets_on=False, extra=alloc_stage.run)
 
 
 if __name__ == "__main__":
